@@ -104,6 +104,26 @@ def sweep_cases(tier):
                     spec = [E(b"a", "file", content=u * i), E(b"b", "file", content=u * j + content_pattern("t", tail)), E(b"c", "file", content=content_pattern("c", B + 3))]
                     yield dict(kind="sweep-repeated-blocks", names=(uname, "a=%d" % i, "b=%d" % j, "tail=%d" % tail), spec=spec,
                                cfg=dict(comp="gzip", bs=B) if (i + j) % 2 else dict(comp="lz4", bs=B, T=1), mode="packfile")
+    # (b3) fragment block in flight: enough small tails to overflow a fragment block, then files whose last partial block is all zero / whose
+    #      blocks are sparse, then more tails (the completion order of data blocks, fragment blocks and sparse tails differs from submission order)
+    for nsmall in (3, 4):
+        for nblk in (1, 2):
+            for ztail in (1, 1000, B - 1):
+                for kind in ("zero-tail", "zero-block+tail", "all-zero"):
+                    if quick and (nsmall, nblk) not in ((3, 1), (4, 2)) and kind != "zero-tail":
+                        continue
+                    spec = [E(b"a%d" % i, "file", content=content_pattern("sm%d" % i, 1500 + i)) for i in range(nsmall)]
+                    for r in range(3):
+                        if kind == "zero-tail":
+                            c = content_pattern("zt%d" % r, nblk * B) + bytes(ztail)
+                        elif kind == "zero-block+tail":
+                            c = content_pattern("zb%d" % r, B) + bytes(nblk * B) + content_pattern("zbt%d" % r, ztail)
+                        else:
+                            c = bytes(nblk * B + ztail)
+                        spec.append(E(b"b%d" % r, "file", content=c))
+                        spec.append(E(b"c%d" % r, "file", content=content_pattern("tl%d" % r, 1400 + r)))
+                    yield dict(kind="sweep-fragment-in-flight", names=("small=%d" % nsmall, "blocks=%d" % nblk, "zeros=%d" % ztail, kind), spec=spec,
+                               cfg=dict(comp="gzip", bs=B, j=1) if nsmall == 3 else dict(comp="lz4", bs=B, j=4), mode="packfile")
     # (c) distinct owner ids
     for n in ([1, 2, 255, 256, 257] if quick else [1, 2, 255, 256, 257, 2047, 2048, 2049, 65534, 65535, 65536, 65537]):
         # n distinct ids in total (0 is always there for the root)
